@@ -173,7 +173,8 @@ def bounds(tier, seed):
         "number_types_stacks": [list(c) for c in (DTYPE_COMPS_Q if tier == "quick" else DTYPE_COMPS_T)],
         "number_types_systems_per_n": "F/P/Q/R kinds " + str([list(x) for x in _dtype_systems(1, seed)]) + " for n = 1, "
         "rotating with n; tunings " + ("two of four per system, rotating with n" if tier == "quick" else "all six")
-        + "; both resample modes; measured values = 4 y (non-whole) or round(4 y) (whole), |.| <= 12",
+        + "; both resample modes; measured values = 4 y (non-whole) or round(4 y) (whole), |.| <= 12; a one-component "
+        "observation of a mixed_within kind and a one-observation stack of an alternating kind hold the first type only",
         "input_types_casts": [name for name, _, _ in INPUT_CASTS],
         "input_types_value_kinds": {"one integer input": INPUT_VALUE_KINDS_SINGLE, "float64 / all integer": INPUT_VALUE_KINDS},
         "input_types_sequence": ".".join(INPUT_SEQUENCE),
